@@ -3,6 +3,7 @@ implementation-side observation of the decay tables, and generators."""
 from __future__ import annotations
 
 import json
+from pathlib import Path
 from fractions import Fraction
 
 import decgen
@@ -91,10 +92,18 @@ def observe_tables(p, only=None):
     return out
 
 
-def parse(text, include_cc=True, extra_models=()):
+def parse(text, include_cc=True, extra_models=(), via_file=False):
     import warnings
     from decaylanguage import DecFileParser
-    p = DecFileParser.from_string(text)
+    if via_file:
+        # the same text handed over as a file
+        import tempfile
+        with tempfile.TemporaryDirectory(prefix="decpost_") as td:
+            f = Path(td) / "in.dec"
+            f.write_bytes(text.encode("utf-8"))
+            p = DecFileParser(f)
+    else:
+        p = DecFileParser.from_string(text)
     if extra_models:
         p.load_additional_decay_models(*extra_models)
     with warnings.catch_warnings(record=True) as w:
